@@ -11,5 +11,6 @@ CONSTANTS
   RestartOn = FALSE
   MaxOps = 3
   Depth = 3
+  Pattern <- PatNone
 INVARIANT EmitRej
 CONSTRAINT RejPrefix
